@@ -100,6 +100,7 @@ def main(tier, replay=None):
         "evaluations": done,
         "distinct_nontrivial": len(nont),
         "rule": ("plan = 2-16 thread programs (1-30 calls each: own eav_t set-up/validation/free + stateless validators on strings shared by pointer between all threads) "
+                 "+ in one plan of four object handoff: leading calls of a program (or just eav_init) made by the main thread before the workers start, trailing calls and eav_free made by it after the join "
                  "+ a scheduling strategy drawn per plan (random switch p in {1/2..1/256}, PCT depth 1-4, round-robin quantum 1-17); the executed context-switch list is recorded and is what replays; "
                  "distinct = distinct (plan hash x interleaving hash over (thread, site) of every logged event); non-trivial = >=2 context switches and >=1 logged shared-memory-capable event"),
         "samples": samples or [{"note": "no sample captured"}],
@@ -113,7 +114,9 @@ def main(tier, replay=None):
         "determinism_selftest": det,
         "stats": st,
         "fault_kinds": {"preemption_at_every_logged_event": {"context_switches_executed": st.get("context_switches", 0)},
-                        "note": "the injected 'fault' of this check is the adversarial schedule; no I/O or allocation faults apply to C14"},
+                        "note": "the injected 'fault' of this check is the adversarial schedule; allocation failures are attached to individual calls in one plan out of six (an abort inside the library is an outcome compared with the sequential run)",
+                        "allocation_failure_attached_to_call": st.get("alloc_faults_attached", 0),
+                        "object_handoff_between_main_and_worker": st.get("handoff_plans", 0)},
         "components": {"real_or_stub": ["libeav (src/*.c, partial/idn2/*.c): real code compiled with -fsanitize=thread instrumentation, linked against sim/sched/rt.cpp instead of libtsan",
                                         "threads: real pthreads, one runnable at a time (futex baton); the scheduler alone decides who runs",
                                         "libidn2: real, uninstrumented, executes atomically between two scheduling points",
@@ -133,6 +136,9 @@ def main(tier, replay=None):
             zero.append("op kind " + k)
     if not st.get("context_switches"):
         zero.append("context switches")
+    for k in ("handoff_plans", "calls_by_main_before_start", "calls_by_main_after_join", "alloc_faults_attached"):
+        if not st.get(k):
+            zero.append(k)
     cov["probes_at_zero"] = zero
     cov["expected_zero_on_a_correct_tree"] = {"write_shared_locations": st.get("write_shared_locations", 0), "racing_pairs_seen": st.get("racing_pairs_seen", 0),
                                               "note": "libeav keeps no shared mutable state, so these are 0 on the unchanged tree; they become non-zero as soon as a change introduces any"}
